@@ -364,7 +364,8 @@ func formatInto(sb *strings.Builder, format string, args []string) (int, error) 
 				sb.WriteByte(b)
 				fmts = nil
 			case '+', '-', ' ':
-				if len(fmts) > 1 {
+				// flags may be combined, but must come before the width
+				if strings.ContainsAny(string(fmts), "123456789") {
 					return 0, fmt.Errorf("invalid format char: %c", c)
 				}
 				fmts = append(fmts, c)
